@@ -296,6 +296,17 @@ func coordinate(p *Prop, t Tier, seed int64, nw int) int {
 	}
 	seen := map[string]bool{}
 	nviol, nknown := 0, 0
+	os.Remove(filepath.Join(WorkDir(), "violations-"+p.ID+".jsonl"))
+	if len(c.Violations) > 0 {
+		// everything the workers reported, unconfirmed, for triage
+		if f, err := os.Create(filepath.Join(WorkDir(), "violations-"+p.ID+".jsonl")); err == nil {
+			for _, v := range c.Violations {
+				b, _ := json.Marshal(v)
+				f.Write(append(b, '\n'))
+			}
+			f.Close()
+		}
+	}
 	knownHit := []string{}
 	for _, v := range c.Violations {
 		if seen[v.Key] {
